@@ -13,7 +13,7 @@ from . import extract
 from .core import Obligation, Unsupported
 from .dsl import REG
 from .executor import Collector, Executor, global_axioms, load_classes
-from .solve import discharge, to_smt2
+from .solve import discharge, to_smt2, relevance_slice
 from .stmt import PathLimit
 
 ROOT = os.path.dirname(os.path.dirname(os.path.abspath(__file__)))
@@ -92,7 +92,13 @@ def solve(res: Result, timeout_ms=10000, procs=None):
             ob.name = f"{ob.name}~{seen[ob.name]}"
         else:
             seen[ob.name] = 0
-        jobs.append((ob.name, to_smt2(ax, ob.hyps, ob.goal), 3000 if ob.expect == 'sat' else None))
+        if ob.expect == "sat":
+            jobs.append((ob.name, to_smt2(ax, ob.hyps, ob.goal), 3000))
+        else:
+            sl = relevance_slice(ob.hyps, ob.goal)
+            ob.info["slice"] = (len(sl), len(ob.hyps))
+            jobs.append({"name": ob.name, "sliced": to_smt2(ax, sl, ob.goal),
+                         "full": to_smt2(ax, ob.hyps, ob.goal) if len(sl) < len(ob.hyps) else None})
     t0 = time.time()
     res.status = discharge(jobs, timeout_ms=timeout_ms, procs=procs)
     res.wall = time.time() - t0
